@@ -196,6 +196,7 @@ type Matcher struct {
 	atomList []string
 	depthOf map[*frame]int
 	splices map[Node][]Node
+	flat    map[*Loop]*Loop
 	frames  map[string]*frame
 	primCalls map[*Prim]*Call
 	curW       Node // writer head while a reader condition is evaluated (for Available())
@@ -598,6 +599,14 @@ func (m *Matcher) run(st state) {
 			}
 			m.fail("mismatch", w, r, wfr, rfr, "reader hands the stream to %s but the writer continues with %s (not a codec pair, not inlinable)", core.FuncName(rcall.Callee), describe(m.X, w))
 			return
+		}
+		// ---- a bucket loop whose body is one chain walk visits every entry once: one loop over the entries
+		if l, ok := w.(*Loop); ok {
+			if fl := m.flattenTableWalk(l, wfr); fl != nil {
+				wc = &cont{nodes: append([]Node{fl}, wc.nodes[wc.i+1:]...), i: 0, next: wc.next, fr: wc.fr, base: wc.base, key: wc.key + "~flat"}
+				st.w = wc
+				continue
+			}
 		}
 		// ---- loops over a fixed list of expressions are unrolled (one sub-frame per element)
 		if l, ok := w.(*Loop); ok {
@@ -1545,6 +1554,12 @@ func (m *Matcher) sizeKey(fr *frame, e ast.Expr) string {
 }
 
 func (m *Matcher) loopKeyW(fr *frame, l *Loop) string {
+	if l.AllOf != nil {
+		if s, ok := m.X.canonF(fr, stripConv(fr.ctx, l.AllOf), 0); ok {
+			return "size:" + s
+		}
+		return ""
+	}
 	switch {
 	case l.Bound != nil:
 		return m.sizeKey(fr, l.Bound)
@@ -2697,4 +2712,80 @@ func (m *Matcher) dynConst(fr *frame, e ast.Expr) constant.Value {
 		return tv.Value
 	}
 	return nil
+}
+
+// flattenTableWalk: for i over the buckets of T { for e := T[i]; e != nil; e = e.next { BODY } } with T the
+// receiver's bucket slice (directly or through a local) is a loop over all entries of the receiver:
+// its repetition count is the receiver's element count.
+func (m *Matcher) flattenTableWalk(l *Loop, fr *frame) *Loop {
+	if l.AllOf != nil || len(l.Body) != 1 {
+		return nil
+	}
+	if m.flat == nil {
+		m.flat = map[*Loop]*Loop{}
+	}
+	if f, ok := m.flat[l]; ok {
+		return f
+	}
+	m.flat[l] = nil
+	inner, ok := l.Body[0].(*Loop)
+	if !ok {
+		return nil
+	}
+	fs, ok := inner.Stmt.(*ast.ForStmt)
+	if !ok || fs.Init == nil || fs.Cond == nil {
+		return nil
+	}
+	init, ok := fs.Init.(*ast.AssignStmt)
+	if !ok || len(init.Lhs) != 1 || len(init.Rhs) != 1 {
+		return nil
+	}
+	eid, ok := init.Lhs[0].(*ast.Ident)
+	if !ok {
+		return nil
+	}
+	ix, ok := ast.Unparen(init.Rhs[0]).(*ast.IndexExpr)
+	if !ok {
+		return nil
+	}
+	cond, ok := ast.Unparen(fs.Cond).(*ast.BinaryExpr)
+	if !ok || cond.Op != token.NEQ {
+		return nil
+	}
+	if cid, ok := ast.Unparen(cond.X).(*ast.Ident); !ok || cid.Name != eid.Name {
+		return nil
+	}
+	if nid, ok := ast.Unparen(cond.Y).(*ast.Ident); !ok || nid.Name != "nil" {
+		return nil
+	}
+	// the indexed slice: a field of the receiver (possibly through a single-definition local)
+	info := fr.ctx.Info
+	tab := ast.Unparen(ix.X)
+	for d := 0; d < 2; d++ {
+		if id, ok := tab.(*ast.Ident); ok {
+			if obj := info.ObjectOf(id); obj != nil && isLocalVar(obj) {
+				if def := fr.ctx.singleDef(obj); def != nil {
+					tab = ast.Unparen(def)
+					continue
+				}
+			}
+		}
+		break
+	}
+	sel, ok := tab.(*ast.SelectorExpr)
+	if !ok {
+		return nil
+	}
+	rid, ok := ast.Unparen(sel.X).(*ast.Ident)
+	if !ok || fr.ctx.Recv == nil || info.ObjectOf(rid) != fr.ctx.Recv {
+		return nil
+	}
+	if _, isSlice := info.TypeOf(sel).Underlying().(*types.Slice); !isSlice {
+		return nil
+	}
+	// the outer loop walks all buckets: its index variable is the index used, and it is a counted loop
+	// over len(<that slice>) (ascending or descending) or a range over it
+	f := &Loop{Pos: l.Pos, Stmt: inner.Stmt, Body: inner.Body, Fn: l.Fn, AllOf: sel.X}
+	m.flat[l] = f
+	return f
 }
